@@ -368,6 +368,8 @@ class BuiltinsMixin:
         if isinstance(v, (tuple, list)):
             ts = [self.truth_term(x) for x in v]
             return self.wrap_bool(self.disj(ts) if is_any else self.conj(ts))
+        if isinstance(v, SV) and v.meta is not None and v.meta[0] == 'comp' and isinstance(v.meta[5], TBool):
+            return SV(self.fused_fold(is_any, v.meta), TBool())
         if isinstance(v, (SV, Box)):
             t = self.term(v)
             ty = self.ty_of(v)
@@ -583,8 +585,8 @@ class BuiltinsMixin:
         n = z3.Length(b.term)
         if not self.ex.branch(n > 0, 'pop-nonempty'):
             self.raise_exc(IndexError, 'pop from empty list', fr, node)
-        x = SV(z3.simplify(b.term[n - 1]), b.elem)
-        b.term = z3.simplify(z3.SubSeq(b.term, 0, n - 1))
+        x = SV(b.term[n - 1], b.elem)
+        b.term = z3.SubSeq(b.term, 0, n - 1)
         return x
 
     def bm_list_copy(self, b, args, kwargs, fr, node):
